@@ -42,6 +42,7 @@ type ctlGen struct {
 	sent  []*event // requests sent so far (for duplicates / key collisions / rx expiry)
 	prof  map[string]int
 	peers []int
+	forced *event // the next event, decided by the previous one
 }
 
 type outSRR struct {
@@ -212,6 +213,11 @@ func (g *ctlGen) anySeid() uint64 {
 
 func (g *ctlGen) gen() *event {
 	r := g.r
+	if g.forced != nil {
+		ev := g.forced
+		g.forced = nil
+		return ev
+	}
 	ev := &event{typ: "recv", lists: map[string][]rule{}}
 	k := g.pickKind()
 	switch k {
@@ -358,6 +364,12 @@ func (g *ctlGen) gen() *event {
 			default:
 				ev.seid = o.seid
 			}
+			// the response overtakes the timeout event of a retransmission timer that has just fired: the stale
+			// timeout is delivered right after the response
+			if r.chance(25) {
+				ev.fired = true
+				g.forced = &event{typ: "tmo", tk: "tx", peer: o.peer, seq: o.seq, lists: map[string][]rule{}}
+			}
 			if r.chance(80) {
 				g.outst = append(g.outst[:i], g.outst[i+1:]...)
 			}
@@ -397,6 +409,15 @@ func (g *ctlGen) gen() *event {
 		if len(g.outst) > 0 && r.chance(90) {
 			o := g.outst[r.intn(len(g.outst))]
 			ev.peer, ev.seq = o.peer, o.seq
+		} else if len(g.sent) > 0 && r.chance(60) {
+			// a stale transmit timeout whose "<address>-<sequence>" also names a request RECEIVED from that peer (the two
+			// kinds of transaction share the key format): the retained response must survive it — a duplicate follows
+			o := g.sent[len(g.sent)-1-r.intn(min(len(g.sent), 6))]
+			ev.peer, ev.seq = o.peer, o.seq
+			if r.chance(70) {
+				cp := *o
+				g.forced = &cp
+			}
 		} else {
 			ev.peer, ev.seq = g.peer(), uint32(r.intn(8))
 		}
